@@ -25,12 +25,15 @@ import (
 //     read mask; lossy consumers stalled, slow, or drained), every received event object is copied field by field when
 //     it is received (kind, id, time, seed flags, IDENTITY of old/new value) and re-compared after every later op; the
 //     values themselves go to the snapshot tracker as everywhere else;
-//   - tie "core-events" (K1): the Lean event model (lean/ScVerif/C07/Events.lean) predicts, for every write, what each
-//     backpressure subscriber's consumer receives AND which of them receive the same object (canonical numbering of
-//     the pointers in first-seen order), and the contents of every object seen so far (audit after every write).
-//     Lossy consumers are timing-dependent and are not part of the answers; the model's theorem about them
-//     (C07_events_lossy_private: what a lossy consumer receives is never an object anyone else holds) is compared as
-//     one final answer per sequence.
+//   - tie "core-events" (K1): the Lean event model (lean/ScVerif/C07/Events.lean + EventVals.lean) predicts, for every
+//     write, what each backpressure subscriber's consumer receives AND which of them receive the same object (canonical
+//     numbering of the pointers in first-seen order), the contents of every object seen so far and WHICH VALUE OBJECTS
+//     (old / new message pointers, numbered by identity) those events carry (audit after every write).
+//     Lossy Collection consumers are part of the answers too (`ev poll i`): the harness runs one operation at a time and
+//     lets every pipeline run until it blocks (one P, quiesce), so what a stalled / slow / drained lossy consumer is
+//     handed when it takes an event - the merger's merged copy, through include (behind the merger) and the read mask -
+//     is determined; the model's theorem about them (C07_events_lossy_private: what a lossy consumer receives is never
+//     an object anyone else holds) is compared as one final answer per sequence.
 
 type evSeq struct {
 	Kind  string `json:"kind"` // "events"
@@ -50,6 +53,7 @@ type evSub struct {
 	copies      []resource.CollectionChange // field-by-field copy taken by the consumer the moment it received the event
 	since       int                         // number of successful writes before it subscribed
 	expected    int                         // include subscribers: events its filter lets through so far (the harness's own count)
+	polled      int                         // lossy subscribers: events of got already reported to the tie as `ev poll` answers
 }
 
 func (s *evSub) kind() string {
@@ -154,6 +158,7 @@ func runEventSeq(es evSeq, tie *lib.Tie, mon *lib.Monitor, drv *lib.Driver) {
 			}()
 		}
 		trace = append(trace, fmt.Sprintf("%d: subscriber #%d: Pull(%s, updates only)", step, i, s.kind()))
+		quiesce(40)
 	}
 	// lines for the model, answers of the code
 	lines := []string{"ev reset"}
@@ -192,6 +197,35 @@ func runEventSeq(es evSeq, tie *lib.Tie, mon *lib.Monitor, drv *lib.Driver) {
 		}
 		return false
 	}
+	// pollLine: one `ev poll i` exchange of the tie. The consumer of the lossy subscriber i takes the event its Pull goroutine
+	// holds, if it holds one (drained consumers have taken it already: the next event of got not reported yet).
+	pollLine := func(i int, s *evSub) bool {
+		quiesce(40)
+		if s.pace != "drain" {
+			poll(i, s)
+		}
+		quiesce(40)
+		s.mu.Lock()
+		defer s.mu.Unlock()
+		lines = append(lines, fmt.Sprintf("ev poll %d", i))
+		if s.polled >= len(s.got) {
+			code = append(code, "-")
+			return false
+		}
+		e := s.got[s.polled]
+		s.polled++
+		k, ok := canon[e]
+		if !ok {
+			k = len(seen)
+			canon[e] = k
+			seen = append(seen, e)
+		}
+		code = append(code, fmt.Sprintf("#%d:%s", k, showEvent(e)))
+		if mon != nil {
+			mon.Count("poll:" + s.kind() + ":" + e.ChangeType.String())
+		}
+		return true
+	}
 	check := func(opKind string, n int) {
 		harvest()
 		for _, sn := range snaps {
@@ -225,13 +259,18 @@ func runEventSeq(es evSeq, tie *lib.Tie, mon *lib.Monitor, drv *lib.Driver) {
 		open(true, mask, []string{"stalled", "stalled", "slow", "drain"}[r.Intn(4)], false)
 		lines, code = append(lines, fmt.Sprintf("ev sub 1 %d", b2i(mask))), append(code, "ok")
 	}
-	// subscribers with an include filter; the backpressure ones are part of the tie (`ev subi`), lossy ones are monitor only
-	// (the model has no include stage behind the merger) and invisible to the others
+	// subscribers with an include filter: backpressure (`ev subi`) and lossy (`ev subli`: the filter runs behind the merger)
 	for i, n := 0, r.Intn(3); i < n; i++ {
 		lossy, mask := r.Intn(3) == 0, r.Intn(3) == 0
-		open(lossy, mask, "drain", true)
+		pace := "drain"
+		if lossy {
+			pace = []string{"stalled", "slow", "drain"}[r.Intn(3)]
+		}
+		open(lossy, mask, pace, true)
 		if !lossy {
 			lines, code = append(lines, fmt.Sprintf("ev subi %d", b2i(mask))), append(code, "ok")
+		} else {
+			lines, code = append(lines, fmt.Sprintf("ev subli %d", b2i(mask))), append(code, "ok")
 		}
 	}
 	var wrong [][3]string
@@ -282,7 +321,7 @@ func runEventSeq(es evSeq, tie *lib.Tie, mon *lib.Monitor, drv *lib.Driver) {
 		default: // slow lossy consumers take one event
 			opKind = "slow-consumer-receive"
 			for i, s := range subs {
-				if s.lossy && s.pace == "slow" && poll(i, s) {
+				if s.lossy && s.pace == "slow" && pollLine(i, s) {
 					trace = append(trace, fmt.Sprintf("%d: consumer of #%d receives one event", step, i))
 				}
 			}
@@ -352,23 +391,43 @@ func runEventSeq(es evSeq, tie *lib.Tie, mon *lib.Monitor, drv *lib.Driver) {
 		}
 		wrong = nil
 		ans = strings.Join(parts, "|")
+		lines, code = append(lines, line), append(code, ans)
+		// one operation at a time: every pipeline runs until it blocks before the next operation starts (a stalled lossy
+		// subscriber's Pull goroutine then holds the first event of its merger, the merger the rest)
+		quiesce(40)
+		// drained lossy consumers: what came out of their pipelines for this write (nothing, when the merger cancelled an ADD
+		// against a REMOVE or the include filter dropped the event)
+		for i, s := range subs {
+			if s.lossy && s.pace == "drain" {
+				for pollLine(i, s) {
+				}
+			}
+		}
 		check(opKind, step+1)
 		au := make([]string, len(seen))
 		for i, e := range seen {
 			au[i] = showEvent(e)
 		}
-		lines = append(lines, line, "ev audit")
-		code = append(code, ans, "seen="+strings.Join(au, ";"))
+		lines = append(lines, "ev audit")
+		code = append(code, "seen="+strings.Join(au, ";")+"|vals="+valueSharing(len(seen), func(i int) (proto.Message, proto.Message) { return seen[i].OldValue, seen[i].NewValue }))
 	}
 	// the end: stalled and slow lossy consumers drain what their pipelines hold, then everything is compared once more
 	step = es.Steps
 	for i, s := range subs {
 		if s.lossy && s.pace != "drain" {
-			for poll(i, s) {
+			for pollLine(i, s) {
 			}
 		}
 	}
 	check("final-drain", es.Steps)
+	{
+		au := make([]string, len(seen))
+		for i, e := range seen {
+			au[i] = showEvent(e)
+		}
+		lines = append(lines, "ev audit")
+		code = append(code, "seen="+strings.Join(au, ";")+"|vals="+valueSharing(len(seen), func(i int) (proto.Message, proto.Message) { return seen[i].OldValue, seen[i].NewValue }))
+	}
 	// sharing: what a lossy consumer received must not be an object any other consumer holds
 	holders := map[*resource.CollectionChange][]int{}
 	for i, s := range subs {
@@ -438,6 +497,7 @@ func runValueEventSeq(es evSeq, tie *lib.Tie, mon *lib.Monitor, drv *lib.Driver)
 		mu     sync.Mutex
 		got    []*resource.ValueChange // pace "drain": a goroutine receives (a write waits for backpressure consumers)
 		taken  int
+		polled int // lossy subscribers: entries of got already reported to the tie as `ev vpoll` answers
 		lossy  bool
 		mask   bool
 		first  int // index in got of the event of the first Set after it subscribed (1 when it got a seed)
@@ -481,7 +541,7 @@ func runValueEventSeq(es evSeq, tie *lib.Tie, mon *lib.Monitor, drv *lib.Driver)
 		ctx, cancel := context.WithCancel(context.Background())
 		sb := &vsub{kind: kind, ch: val.Pull(ctx, opts...), cancel: cancel, pace: pace, lossy: lossy, mask: mask, first: b2i(!updatesOnly), since: sets}
 		subs = append(subs, sb)
-		lines, code = append(lines, fmt.Sprintf("ev vsub %d %d", b2i(lossy), b2i(mask))), append(code, "ok")
+		lines, code = append(lines, fmt.Sprintf("ev vsub %d %d %d", b2i(lossy), b2i(mask), b2i(!updatesOnly))), append(code, "ok")
 		if pace == "drain" {
 			go func() {
 				for e := range sb.ch {
@@ -491,44 +551,84 @@ func runValueEventSeq(es evSeq, tie *lib.Tie, mon *lib.Monitor, drv *lib.Driver)
 				}
 			}()
 		}
-		trace = append(trace, fmt.Sprintf("%d: subscriber #%d: Value.Pull(%s)", step, len(subs)-1, kind))
+		trace = append(trace, fmt.Sprintf("%d: subscriber #%d: Value.Pull(%s, seed=%v)", step, len(subs)-1, kind, !updatesOnly))
+		quiesce(40)
 	}
 	input := func(n int) map[string]any {
 		return map[string]any{"kind": "events-value", "seed": es.Seed, "seq": es.Seq, "steps": n, "trace": tailS(trace, 14)}
 	}
-	// receive: every consumer that is due takes what its pipeline offers (bounded non-blocking polling)
-	receive := func(all bool) {
-		for i, s := range subs {
-			origin := fmt.Sprintf("Value.Pull#%d(%s)", i, s.kind)
-			take := func(e *resource.ValueChange) {
-				snaps = append(snaps, &vsnap{ptr: e, copy: *e, origin: origin, step: step})
-				tr.observe(origin+"/event.Value", e.Value)
-			}
-			if s.pace == "drain" {
-				for k := 0; k < 100; k++ {
-					runtime.Gosched()
-				}
-				s.mu.Lock()
-				for ; s.taken < len(s.got); s.taken++ {
-					take(s.got[s.taken])
-				}
-				s.mu.Unlock()
-				continue
-			}
-			if !all && (s.pace == "stalled" || (s.pace == "slow" && r.Intn(3) != 0)) {
-				continue
-			}
-			for k := 0; k < 300; k++ {
+	// vpollLine: one `ev vpoll i` exchange of the tie. The consumer of the lossy subscriber i takes what its Pull goroutine
+	// holds, if it holds something: the seed first (a subscriber that asked for one), then events (drained consumers have
+	// taken it already: the next entry of got not reported yet).
+	vpollLine := func(i int, s *vsub) bool {
+		quiesce(40)
+		if s.pace != "drain" {
+			for k := 0; k < 200; k++ {
+				got := false
 				select {
 				case e, ok := <-s.ch:
 					if ok {
-						take(e)
-						k = 0
+						s.mu.Lock()
+						s.got = append(s.got, e)
+						s.mu.Unlock()
+						got = true
 					}
 				default:
 					runtime.Gosched()
 				}
+				if got {
+					break
+				}
 			}
+		}
+		quiesce(40)
+		s.mu.Lock()
+		defer s.mu.Unlock()
+		lines = append(lines, fmt.Sprintf("ev vpoll %d", i))
+		if s.polled >= len(s.got) {
+			code = append(code, "-")
+			return false
+		}
+		e := s.got[s.polled]
+		s.polled++
+		if s.first == 1 && s.polled == 1 {
+			code = append(code, "seed")
+			return true
+		}
+		k, ok := canon[e]
+		if !ok {
+			k = len(seen)
+			canon[e] = k
+			seen = append(seen, e)
+		}
+		code = append(code, fmt.Sprintf("#%d:%s", k, showV(e)))
+		mon.Count("vpoll:" + s.kind)
+		return true
+	}
+	// receive: the lossy consumers that are due take what their pipelines hold (drained ones after every step, slow ones one
+	// event now and then, stalled ones only at the end); everything any consumer has received goes to the monitor
+	receive := func(all bool) {
+		for i, s := range subs {
+			if s.lossy {
+				switch {
+				case s.pace == "drain" || all:
+					for vpollLine(i, s) {
+					}
+				case s.pace == "slow" && r.Intn(3) == 0:
+					vpollLine(i, s)
+				}
+			}
+		}
+		quiesce(40)
+		for i, s := range subs {
+			origin := fmt.Sprintf("Value.Pull#%d(%s)", i, s.kind)
+			s.mu.Lock()
+			for ; s.taken < len(s.got); s.taken++ {
+				e := s.got[s.taken]
+				snaps = append(snaps, &vsnap{ptr: e, copy: *e, origin: origin, step: step})
+				tr.observe(origin+"/event.Value", e.Value)
+			}
+			s.mu.Unlock()
 		}
 	}
 	check := func(opKind string, n int) {
@@ -598,7 +698,7 @@ func runValueEventSeq(es evSeq, tie *lib.Tie, mon *lib.Monitor, drv *lib.Driver)
 					au[i] = showV(e)
 				}
 				lines = append(lines, fmt.Sprintf("ev vsend %d", 2+step), "ev audit")
-				code = append(code, strings.Join(parts, "|"), "seen="+strings.Join(au, ";"))
+				code = append(code, strings.Join(parts, "|"), "seen="+strings.Join(au, ";")+"|vals="+valueSharing(len(seen), func(i int) (proto.Message, proto.Message) { return nil, seen[i].Value }))
 			}
 		}
 		receive(false)
@@ -607,6 +707,14 @@ func runValueEventSeq(es evSeq, tie *lib.Tie, mon *lib.Monitor, drv *lib.Driver)
 	step = es.Steps
 	receive(true)
 	check("final-drain", es.Steps)
+	{
+		au := make([]string, len(seen))
+		for i, e := range seen {
+			au[i] = showV(e)
+		}
+		lines = append(lines, "ev audit")
+		code = append(code, "seen="+strings.Join(au, ";")+"|vals="+valueSharing(len(seen), func(i int) (proto.Message, proto.Message) { return nil, seen[i].Value }))
+	}
 	mon.Eval(fmt.Sprintf("value/%d/%d", es.Seed, es.Seq), len(snaps) >= 4, nil)
 	if tie == nil || drv == nil {
 		return
@@ -633,6 +741,32 @@ func runValueEventSeq(es evSeq, tie *lib.Tie, mon *lib.Monitor, drv *lib.Driver)
 	tie.Record(key, len(snaps) >= 4, input(es.Steps), model[len(model)-1], code[len(code)-1])
 }
 
+// valueSharing says WHICH value objects the n event objects seen so far carry: the messages are numbered by identity in
+// first-seen order (old before new, events in first-seen order), "-" for nil. Unmasked consumers hold the stored messages
+// themselves (the same objects as every other unmasked consumer, as include's replacement events and as later events' old
+// values); a masked consumer's values are clones nobody else holds.
+func valueSharing(n int, vals func(i int) (old, new proto.Message)) string {
+	canon := map[proto.Message]int{}
+	one := func(m proto.Message) string {
+		if isNilMsg(m) {
+			return "-"
+		}
+		k, ok := canon[m]
+		if !ok {
+			k = len(canon)
+			canon[m] = k
+		}
+		return fmt.Sprint(k)
+	}
+	out := make([]string, n)
+	for i := 0; i < n; i++ {
+		o, nw := vals(i)
+		a := one(o)
+		out[i] = a + "." + one(nw)
+	}
+	return strings.Join(out, ";")
+}
+
 func b2i(b bool) int {
 	if b {
 		return 1
@@ -642,11 +776,13 @@ func b2i(b bool) int {
 
 func runEvents(f lib.Flags, res *lib.Result) {
 	tie := res.Tie("core-events", "K1",
-		"one resource.Collection, 1-6 subscribers (backpressure or lossy, with or without a read mask, opened before and between writes; lossy consumers stalled, slow or drained), "+
-			"random Update(create)/Delete on 2 ids; after EVERY write the Lean event model (Events.lean: bus fan-out of one shared cell, filter, private merger copies) and the code are compared on: what "+
-			"each backpressure consumer received, WHICH consumers received the same object (pointers numbered in first-seen order), and the current contents of every event object seen so far; "+
+		"one resource.Collection, 1-7 subscribers (backpressure or lossy, with or without a read mask, with or without an include filter, opened before and between writes; lossy consumers stalled, slow or drained), "+
+			"random Update(create)/Delete on 2 ids, one operation at a time (every pipeline runs until it blocks: GOMAXPROCS(1) + yields); after EVERY write the Lean event model (Events.lean + EventVals.lean: bus fan-out of one shared cell, "+
+			"include, filter cloning the values, private merger copies, include behind the merger) and the code are compared on: what "+
+			"each backpressure consumer received, what each drained lossy consumer received, WHICH consumers received the same object (pointers numbered in first-seen order), the current contents of every event object seen so far "+
+			"and which VALUE objects (message pointers numbered by identity) those events carry; whenever a slow lossy consumer takes an event, and for stalled ones at the end, what it is handed (merged kind, old value of the first, new value of the last event, include's verdict on the merged event); "+
 			"per sequence additionally the model's theorem for lossy Collection consumers (their objects are held by nobody else); half as many sequences on a resource.Value "+
-			"(Set; subscribers with and without seed) compared the same way; non-trivial = at least 2 subscribers and 4 received events; distinct = distinct sequences")
+			"(Set; subscribers with and without seed; lossy Value consumers only through the sharing structure) compared the same way; non-trivial = at least 2 subscribers and 4 received events; distinct = distinct sequences")
 	mon := res.Monitor("snapshot-core-events",
 		"the same sequences (and as many on a resource.Value, where DropExcess hands the bus's object even to lossy consumers): every event object any consumer receives (shared bus objects, filtered copies, merger output of stalled / slow / drained lossy subscribers) is copied field by field at receipt "+
 			"(kind, id, time, seed flags, identity of old and new value) and compared after every later op and after the final drain; the values go to the snapshot tracker; independent of the Lean model")
@@ -662,7 +798,9 @@ func runEvents(f lib.Flags, res *lib.Result) {
 		if q < 8 {
 			steps = 4 + q // small cases first
 		}
-		runEventSeq(evSeq{Kind: "events", Seed: f.Seed, Seq: q, Steps: steps}, tie, mon, drv)
+		if es := (evSeq{Kind: "events", Seed: f.Seed, Seq: q, Steps: steps}); begin(mon, "core-events", fmt.Sprint(q), es) {
+			runEventSeq(es, tie, mon, drv)
+		}
 		if tie.Error != "" {
 			break
 		}
@@ -672,7 +810,9 @@ func runEvents(f lib.Flags, res *lib.Result) {
 		if q < 6 {
 			steps = 3 + q
 		}
-		runValueEventSeq(evSeq{Kind: "events-value", Seed: f.Seed, Seq: q, Steps: steps}, tie, mon, drv)
+		if es := (evSeq{Kind: "events-value", Seed: f.Seed, Seq: q, Steps: steps}); begin(mon, "core-events/value", fmt.Sprint(q), es) {
+			runValueEventSeq(es, tie, mon, drv)
+		}
 	}
 	for k, v := range mon.Distribution {
 		tie.Distribution[k] = v
